@@ -207,6 +207,25 @@ class _Hang(BaseException):       # not an Exception: code under test that swall
     pass
 
 
+def _escape(pid, case, what):
+    """the implementation did something no observation format of the harness can express (on the pinned tree every
+    generated case runs and converts): reported as a violation with that case as the replay"""
+    import traceback
+    os.makedirs(os.path.join(VERIF, "replays"), exist_ok=True)
+    path = os.path.join(VERIF, "replays", f"{pid}_escape.json")
+    json.dump({"property": pid, "kind": "violation", "note": what, "case": case, "traceback": traceback.format_exc()[-3000:],
+               "replay_cmd": f"./check {pid} --replay {path}"}, open(path, "w"), indent=1)
+    print(f"VIOLATION property={pid} replay={path}")
+    sys.exit(1)
+
+
+def _term(prop, pid, case, obs):
+    try:
+        return prop.to_coq(case, obs)
+    except Exception:  # noqa
+        _escape(pid, case, "the observation of this case cannot be expressed as a term of the model (a value or event kind the pinned tree never produces)")
+
+
 def _guarded(prop, pid, case, limit=90):
     """run one case on the implementation; a case that does not finish within `limit` s of real time is reported as a
     violation with that case as the replay (on the unchanged tree a case takes milliseconds)"""
@@ -218,6 +237,8 @@ def _guarded(prop, pid, case, limit=90):
     signal.setitimer(signal.ITIMER_REAL, limit, 5)      # fires again every 5 s should a handler of the code under test swallow it
     try:
         return prop.run_impl(case)
+    except Exception:  # noqa - an exception the harness does not expect from the code under test
+        _escape(pid, case, "running the case on the implementation raised an exception the harness does not know from the pinned tree")
     except _Hang:
         os.makedirs(os.path.join(VERIF, "replays"), exist_ok=True)
         path = os.path.join(VERIF, "replays", f"{pid}_hang.json")
@@ -276,7 +297,7 @@ def run(prop, argv=None) -> int:
     observed = [_guarded(prop, pid, c) for c in cases]
     t_impl = _real_time() - t_impl
     t_coq = _real_time()
-    terms = [prop.to_coq(c, o) for c, o in zip(cases, observed)]
+    terms = [_term(prop, pid, c, o) for c, o in zip(cases, observed)]
     fails, _ = eval_cases(pid, prop.RUN_MODULE, terms)
     t_coq = _real_time() - t_coq
     nontrivial = set()
